@@ -1021,6 +1021,22 @@ Lemma concat_rev_cons_len (d : bytes) acc :
   length (concat (rev (d :: acc))) = (length (concat (rev acc)) + length d)%nat.
 Proof. cbn [rev]. rewrite concat_app, app_length. cbn [concat]. rewrite app_nil_r. reflexivity. Qed.
 
+(* the bound is tight: Read does return (0, nil) on every empty output record, so a (non-conforming)
+   responder that sends 100 of them in a row before its header block exhausts bufio's budget *)
+Lemma reader_progress_tight :
+  exists recs sizes t,
+    Forall valid_rec recs /\ length (filter empty_out recs) = BUFIO_EMPTY_READS /\
+    sr_reads (sr_init (wire_of recs ++ enc_rec end_rec)) sizes = Ok t /\ bufio_ok t = false.
+Proof.
+  exists (repeat (6, [], 0) 100 ++ [(6, bs "Status: 200", 0)]), (repeat 4096%nat 102).
+  eexists. split; [|split; [|split]].
+  - apply Forall_app. split; [apply Forall_forall; intros x Hx; apply repeat_spec in Hx; subst x|repeat constructor];
+      vm_compute; repeat split; congruence.
+  - vm_compute. reflexivity.
+  - vm_compute. reflexivity.
+  - vm_compute. reflexivity.
+Qed.
+
 (* the per-call view and the accumulated view are the same reads *)
 Lemma sr_reads_all sizes : forall s acc,
   exists t, sr_reads s sizes = Ok t /\
